@@ -9,10 +9,12 @@ import Cirbo.Proofs.PassPipe
 -- OBLIGATION: c03_pipeline_of_rrg_preserves
 -- OBLIGATION: c03_muo_preserves
 -- OBLIGATION: c03_mdg_preserves
+-- OBLIGATION: c03_meg_preserves
 -- OBLIGATION: c03_pipelines_preserve
--- OBLIGATION: c03_cleanup_light_preserves
+-- OBLIGATION: c03_cleanup_preserves
+-- OBLIGATION: c03_equal_rows_mean_equal_functions
 -- OBLIGATION: c03_same_function
--- PARTIAL: proved for RemoveRedundantGates (both modes), MergeUnaryOperators, MergeDuplicateGates, every pipeline / pipe-operator composition / apply_transformers list over them, and cleanup (light). MergeEquivalentGates (truth-table groups) and therefore cleanup(use_heavy=True) are modelled one-to-one (Model/Passes.lean), compared with the code field by field on every run and checked by the truth-table oracle; their preservation theorem is not proved yet. "The argument is not modified" is decided by the correspondence harness (Lean values are immutable). "Never more gates" is proved for RRG; MUO/MDG keep the gate count and rely on the implied RRG.
+-- PARTIAL: function, interface and invariant preservation is proved for all four passes (RemoveRedundantGates both modes, MergeUnaryOperators, MergeDuplicateGates, MergeEquivalentGates), for every pipeline / pipe-operator composition / apply_transformers list and for cleanup (light and heavy), on circuits satisfying the C02 invariant with accepted arities. "Never more gates" is proved for RemoveRedundantGates; the merging passes keep every gate (same labels/types/operand counts) and rely on the implied RemoveRedundantGates. "The argument is not modified" is decided by the correspondence harness (Lean values are immutable). Theorems are partial-correctness (whenever the pass returns).
 -/
 namespace Cirbo
 
@@ -70,15 +72,24 @@ theorem c03_muo_preserves {c c' : Circuit} (hw : WFS c) (h : muo c = .ok c') : P
 /-- **MergeDuplicateGates** -/
 theorem c03_mdg_preserves {c c' : Circuit} (hw : WFS c) (h : mdg c = .ok c') : Preserves c c' := mdg_preserves hw h
 
-/-- **any composition** (`Transformer.transform`, `t1 | t2`, `apply_transformers` on a list) of passes
-with proved theorems -/
-theorem c03_pipelines_preserve (ts : List Tr) {c c' : Circuit} (hw : WFS c)
-    (hts : ∀ t ∈ linearize.linearizeList ts, Proved t) (h : applyTransformers c ts = .ok c') : Preserves c c' :=
-  applyTransformers_preserves ts hw hts h
+/-- **MergeEquivalentGates** (gates with equal per-gate truth tables are merged) -/
+theorem c03_meg_preserves {c c' : Circuit} (hw : WFS c) (har : ArOK c) (h : meg c = .ok c') : Preserves c c' :=
+  meg_preserves hw har h
 
-/-- **`cleanup(circuit)`** (light) -/
-theorem c03_cleanup_light_preserves {c c' : Circuit} (hw : WFS c) (h : cleanup c false = .ok c') : Preserves c c' :=
-  cleanup_light_preserves hw h
+/-- what MergeEquivalentGates relies on: two gates whose rows of `get_gates_truth_table` coincide have
+the same value under every valuation -/
+theorem c03_equal_rows_mean_equal_functions {c : Circuit} (h : WFU c) {gtt : Dict (List V3)}
+    (hg : gatesTruthTable c = .ok gtt) {l l' : Label} (hl : l ∈ c.labels) (hl' : l' ∈ c.labels)
+    (hrow : (gtt.get? l).getD [] = (gtt.get? l').getD []) {b v : Label → Bool} (hv : IsValB c b v) : v l = v l' :=
+  gtt_equal_rows_sound h hg hl hl' hrow hv
+
+/-- **any composition** (`Transformer.transform`, `t1 | t2`, `apply_transformers` on a list, nested) -/
+theorem c03_pipelines_preserve (ts : List Tr) {c c' : Circuit} (hw : WFS c) (har : ArOK c)
+    (h : applyTransformers c ts = .ok c') : Preserves c c' := pipeline_preserves ts hw har h
+
+/-- **`cleanup(circuit, use_heavy=…)`**, light and heavy -/
+theorem c03_cleanup_preserves {c c' : Circuit} {heavy : Bool} (hw : WFS c) (har : ArOK c)
+    (h : cleanup c heavy = .ok c') : Preserves c c' := cleanup_preserves hw har h
 
 /-- `Preserves` gives the identical truth table: under any input assignment, the valuation of the
 result gives each output position the value the valuation of the argument gives it -/
@@ -105,8 +116,10 @@ example : ((c03Example >>= rrg true).toOption.map fun c => (c.inputs, c.outputs,
 #print axioms c03_pipeline_of_rrg_preserves
 #print axioms c03_muo_preserves
 #print axioms c03_mdg_preserves
+#print axioms c03_meg_preserves
 #print axioms c03_pipelines_preserve
-#print axioms c03_cleanup_light_preserves
+#print axioms c03_cleanup_preserves
+#print axioms c03_equal_rows_mean_equal_functions
 #print axioms c03_same_function
 
 end Cirbo
